@@ -405,6 +405,15 @@ func genWorkload(r *hlib.Rand, sync bool, n int, bigBuf bool) (string, []string)
 			}
 		}
 		txns = append(txns, "txn "+strings.Join(toks, " "))
+		if !tiny && !bigBuf && mt == 1024 && i == n/2 && r.Chance(35) {
+			// one transaction that rotates the memtable twice: two sealed memtables wait for the
+			// flush worker at the same time (flushes must still be installed in segment order)
+			var wide []string
+			for k, m := 0, 36+r.Intn(9); k < m; k++ {
+				wide = append(wide, entToken(100+k, 20, 0, vt))
+			}
+			txns = append(txns, "txn "+strings.Join(wide, " "))
+		}
 	}
 	return open, txns
 }
